@@ -82,9 +82,13 @@ def run_case(case):
                        *h.spec["objects"][ups[0]]["params"]["hourly_usage_journey_starts"][2:]]}
         if h.apply(e) is None:
             classes.add("non_integer_hourly_input")
+    f3_nets = set()
     for _ in range(case["n_edits"]):
+        sb = h.spec
         if h.apply(h.propose()) is not None:
             break
+        from .c01 import f3_networks
+        f3_nets |= f3_networks(sb, h.spec)
     sysm = h.system
     objs_list = observe.all_objects(sysm)
     V = []
@@ -97,8 +101,11 @@ def run_case(case):
         s = observe.snapshot(sysm)
         d = observe.diff(snap0, s, rtol=1e-12)
         if d:
+            mech = None
+            if f3_nets and set(d) <= ({(n, "energy_footprint") for n in f3_nets} | {(h.spec["system"], "total_footprint")}):
+                mech = "F3-network-of-jobless-pattern-not-recomputed"       # the stale network of known finding F3 gets its value at last
             V.append({"kind": "calculated values changed by a recomputation without input change", "schedule": tag, "n_slots": len(d),
-                      "slots": observe.explain_diff(s, snap0, d), **ctx})
+                      "slots": observe.explain_diff(s, snap0, d), "mechanism": mech, **ctx})
             return False
         return True
 
@@ -175,3 +182,8 @@ def run_case(case):
     nonempty = any(r[0] == "h" for r in snap0.values())
     return {"counters": C, "classes": sorted(classes), "violations": V[:3], "nontrivial": nonempty and C["recompute_schedules"] >= 5,
             "digest": observe.digest(snap0), "sample": h.summary() if case["idx"] < 3 else None}
+
+
+def witness(fid):
+    from .c01 import witness as w
+    return w(fid)
